@@ -371,8 +371,8 @@ func (a SmallInt) DivideOverflow(b SmallInt) (result SmallInt, ok bool) {
 	if b == 0 {
 		return 0, false
 	}
-	c := a / b
-	return c, (c < 0) == ((a < 0) != (b < 0))
+	// the only quotient that does not fit is MinSmallInt / -1
+	return a / b, !(a == MinSmallInt && b == -1)
 }
 
 // DivideVal another value and return an error
@@ -422,7 +422,7 @@ func (i SmallInt) DivideBigInt(other *BigInt) (Value, Value) {
 		return Undefined, Ref(NewZeroDivisionError())
 	}
 	iBigInt := big.NewInt(int64(i))
-	iBigInt.Div(iBigInt, other.ToGoBigInt())
+	iBigInt.Quo(iBigInt, other.ToGoBigInt())
 	if iBigInt.IsInt64() {
 		return SmallInt(iBigInt.Int64()).ToValue(), Undefined
 	}
@@ -436,7 +436,7 @@ func (i SmallInt) DivideSmallInt(other SmallInt) (Value, Value) {
 	result, ok := i.DivideOverflow(other)
 	if !ok {
 		iBigInt := big.NewInt(int64(i))
-		return Ref(ToElkBigInt(iBigInt.Div(iBigInt, big.NewInt(int64(other))))), Undefined
+		return Ref(ToElkBigInt(iBigInt.Quo(iBigInt, big.NewInt(int64(other))))), Undefined
 	}
 	return result.ToValue(), Undefined
 }
